@@ -371,3 +371,111 @@ func runZ(zc zcase, sc *scratch) (string, string) {
 	s2 := guard(func() string { return unzipInto(sc, raw, zc.pre) })
 	return c, s1 + " | " + s2
 }
+
+// ---------------------------------------------------------------- D cases (CheckDir / CreateFromDir)
+
+func fsOK(name string) bool {
+	if name == "" || len(name) > 3000 || pathClean(name) != name || strings.HasPrefix(name, "/") {
+		return false
+	}
+	for _, e := range strings.Split(name, "/") {
+		if e == "" || e == "." || e == ".." || len(e) > 255 || strings.ContainsRune(e, 0) {
+			return false
+		}
+	}
+	return true
+}
+
+// treeOf keeps the files of fc that can coexist in one directory tree.
+func treeOf(fc fcase) []mfile {
+	var kept []mfile
+	for _, f := range fc.files {
+		if !fsOK(f.name) {
+			continue
+		}
+		ok := true
+		for _, k := range kept {
+			if k.name == f.name {
+				ok = false
+			}
+			if f.kind != 'd' && strings.HasPrefix(k.name, f.name+"/") {
+				ok = false
+			}
+			if k.kind != 'd' && strings.HasPrefix(f.name, k.name+"/") {
+				ok = false
+			}
+		}
+		if ok {
+			f.size = int64(len(f.data))
+			kept = append(kept, f)
+		}
+	}
+	return kept
+}
+
+func runD(files []mfile, sc *scratch) (string, string) {
+	names := make([]string, len(files))
+	parts := make([]string, len(files))
+	for i, f := range files {
+		names[i] = f.name
+		parts[i] = fmtFile(f)
+	}
+	c := fmt.Sprintf("D | %s | %s", tableFor(names), strings.Join(parts, " "))
+	sc.n++
+	root := filepath.Join(sc.root, fmt.Sprintf("tree%d", sc.n))
+	must(os.MkdirAll(root, 0777))
+	defer cleanup(root)
+	for _, f := range files {
+		p := filepath.Join(root, filepath.FromSlash(f.name))
+		if f.kind == 'd' {
+			must(os.MkdirAll(p, 0777))
+			continue
+		}
+		must(os.MkdirAll(filepath.Dir(p), 0777))
+		switch f.kind {
+		case 's':
+			must(os.Symlink("target", p))
+		case 'o':
+			must(mkfifo(p))
+		default:
+			must(os.WriteFile(p, f.data, 0644))
+		}
+	}
+	strip := func(ss []string) []string {
+		out := make([]string, len(ss))
+		for i, s := range ss {
+			out[i] = filepath.ToSlash(strings.TrimPrefix(s, root+"/"))
+		}
+		return out
+	}
+	s1 := guard(func() string {
+		cf, _ := modzip.CheckDir(root)
+		return fmt.Sprintf("V=%s I=%s SE=%d NM=%d", hexList(strip(cf.Valid)), hexList(strip(errPaths(cf.Invalid))),
+			b2i(cf.SizeError != nil), b2i(cf.NoModError != nil))
+	})
+	s2 := guard(func() string {
+		var buf bytes.Buffer
+		if err := modzip.CreateFromDir(&buf, modVersion, root); err != nil {
+			return "C=ERR"
+		}
+		zr, err := zip.NewReader(bytes.NewReader(buf.Bytes()), int64(buf.Len()))
+		if err != nil {
+			return "C=UNREADABLE"
+		}
+		var items []string
+		for _, zf := range zr.File {
+			rc, err := zf.Open()
+			if err != nil {
+				return "C=UNREADABLE"
+			}
+			data, err := io.ReadAll(rc)
+			rc.Close()
+			if err != nil {
+				return "C=UNREADABLE"
+			}
+			items = append(items, hx(zf.Name)+":"+hx(string(data)))
+		}
+		return "C=OK:" + strings.Join(items, ",")
+	})
+	return c, s1 + " | " + s2
+}
